@@ -10,5 +10,5 @@ HT == 0..5
 WT == 0..5
 PatQ == {"mix", "checker"}
 PatT == {"ones", "checker", "mix", "half"}
-FillsAll == {"zero", "seven", "nan", "inf"}
+FillsAll == {"zero", "seven", "nan", "inf", "izero", "ineg"}          \* izero / ineg: the fill value handed over as a Python int (0, -3)
 =============================================================================
